@@ -103,6 +103,27 @@ def run(ck):
         bw = 'adaptive' if (i % 3 == 1 and kern != 'sum_power_laplace') else 'constant'
         X = xr.make_X('random', n, d, rng); y = xr.make_y(task, X, rng)
         Xv = xr.make_X('random', 50, d, rng); yv = xr.make_y(task, Xv, rng)
+        # categorical columns declared to the estimator (one-hot groups + numerical columns), with the leaf option `fast_categorical` absent / on / off: the fresh
+        # model that loads the state builds its leaves from the same parameters as the fit did
+        cat_regime = (i % 10 == 8) and (i % 7 not in (3, 5)) and (i % 9 != 7) and not depth0
+        cat_kw = {}
+        if cat_regime:
+            levels_c = [3, 2]; nnum_c = 2; d = nnum_c + sum(levels_c)
+            def catrows(k):
+                R = np.zeros((k, d), dtype=np.float32); R[:, :nnum_c] = rng.standard_normal((k, nnum_c)); o_ = nnum_c
+                for lv in levels_c:
+                    R[np.arange(k), o_ + rng.integers(0, lv, size=k)] = 1.0; o_ += lv
+                return R
+            X = catrows(n); Xv = catrows(50); y = xr.make_y(task, X, rng); yv = xr.make_y(task, Xv, rng)
+            o_ = nnum_c; cidx = []
+            for lv in levels_c:
+                cidx.append(torch.arange(o_, o_ + lv)); o_ += lv
+            cat_kw = dict(categorical_info=dict(numerical_indices=torch.arange(nnum_c), categorical_indices=cidx, categorical_vectors=[torch.eye(lv) for lv in levels_c]))
+            fc_mode = ['absent', True, False][(i // 10) % 3]
+            if kern in ('l2_high_dim', 'sum_power_laplace') and fc_mode is True:
+                fc_mode = 'absent'
+            extra = dict(extra, **({} if fc_mode == 'absent' else dict(fast_categorical=fc_mode)))
+            ck.count(f'categorical_info given, fast_categorical {fc_mode}')
         # degenerate gate scale: an indicator feature that is 0 for 80% of the rows, split along it, soft routing -> the inter-quartile
         # range of the projections is 0 and the stored adaptive scale sits at its 1e-6 clamp
         flat_gate = (i % 7 == 3) and not depth0
@@ -124,11 +145,12 @@ def run(ck):
         tuned_to_hard = (i % 8 == 4) and not flat_gate and not depth0 and not nonunit_gate
         if tuned_to_hard:
             tuned = True; fixedT = 0.6
-        desc = dict(i=i, kernel=kern, task=task, cmode=cmode, n_trees=n_trees, n=n, L=L, f=f, bw=bw, tuned=tuned, tuned_to_hard=tuned_to_hard, fixedT=fixedT, diag=bool(i % 2), tree_iters=int(i % 4 == 2 and not flat_gate and not nonunit_gate), flat_gate=flat_gate, nonunit_gate=nonunit_gate, seed=ck.seed)
+        desc = dict(i=i, kernel=kern, task=task, cmode=cmode, n_trees=n_trees, n=n, L=L, f=f, bw=bw, tuned=tuned, tuned_to_hard=tuned_to_hard, fixedT=fixedT, diag=bool(i % 2), tree_iters=int(i % 4 == 2 and not flat_gate and not nonunit_gate), flat_gate=flat_gate, nonunit_gate=nonunit_gate, categorical=cat_regime, seed=ck.seed)
         ctor = dict(rfm_params=xr.default_rfm_params(kernel=kern, iters=1, diag=bool(i % 2), bandwidth=3.0, exponent=[1.0, 1.2][i % 2],
                                                      bandwidth_mode=bw, reg=1e-2, **extra),
                     max_leaf_size=L, n_trees=n_trees, overlap_fraction=f, verbose=False, classification_mode=cmode,
                     use_temperature_tuning=tuned, split_temperature=fixedT, temp_tuning_space=([0.0] if tuned_to_hard else [0.0, 0.1, 0.7, 2.5]), refill_size=20,
+                    **cat_kw,
                     **(gate_kw if (flat_gate or nonunit_gate) else dict(split_method='random_global_agop', n_tree_iters=1) if i % 4 == 2 else {}))
         if i % 7 == 6:
             ctor['rfm_params'] = None          # the library's default leaf model (rfm_params=None)
@@ -167,6 +189,8 @@ def run(ck):
         except Exception as e:
             ck.count('fit failed'); ck.notes.append(f'fit failed {desc}: {e!r}'[:200]); continue
         Q = torch.tensor(np.concatenate([X[:5], xr.make_X('random', 12, d, rng), 50 * xr.make_X('random', 2, d, rng)]).astype(np.float32))
+        if cat_regime:
+            Q = torch.tensor(np.concatenate([X[:5], catrows(14)]).astype(np.float32))
         is_class = task == 'class'
         split = any(tt['type'] != 'leaf' for tt in src.trees)
         ck.count(f'kernel={kern}'); ck.count(f'task={task}'); ck.count(f'stored T={src.split_temperature is not None}'); ck.count('split' if split else 'single-leaf')
